@@ -323,7 +323,7 @@ func c04Variants(h *verifJHist, otherIdx []byte, seed uint64) []c04Variant {
 // (VERIFJ_ASSUME_OPEN=id,id is a development aid with the same effect.)
 //   C04-index-lookup-range-unchecked: y differs from X only inside offset/length fields of
 //     lookups (no checksum covers them);
-//   C04-index-forged-address-trusted: y differs from X only inside lookup address fields and
+//   C04-index-consistent-forgery-trusted: y differs from X only inside lookup address fields and
 //     batch checksum fields, and every batch checksum of y is right for y's addresses; or only
 //     inside batch end-offset and root-hash fields, every batch end of y naming a real root
 //     record of the journal with that root (an internally consistent forgery).
@@ -376,7 +376,7 @@ func c04FindingFor(h *verifJHist, y []byte) string {
 				return ""
 			}
 		}
-		return "C04-index-forged-address-trusted"
+		return "C04-index-consistent-forgery-trusted"
 	}
 	if onlyRange {
 		return "C04-index-lookup-range-unchecked"
@@ -389,7 +389,7 @@ func c04FindingFor(h *verifJHist, y []byte) string {
 				return ""
 			}
 		}
-		return "C04-index-forged-address-trusted"
+		return "C04-index-consistent-forgery-trusted"
 	}
 	return ""
 }
@@ -416,30 +416,43 @@ type c04Ctx struct {
 
 // observe lays idx next to the journal and opens the directory; returns the view.
 func (x *c04Ctx) observe(what string, idx []byte, readOnly bool, reuseDir bool) verifJView {
-	rt, h := x.rt, x.h
+	v, problem, env := c04Observe(x.dir, x.h.J, x.h.finalMan, idx, readOnly, reuseDir, x.addrs)
+	if env != "" {
+		vh.Inconclusive(x.rt, "%s", env)
+	}
+	if problem != "" {
+		x.rt.Fatalf("%s: %s", what, problem)
+	}
+	return v
+}
+
+// c04Observe materializes (journal J, manifest man, index idx) in dir unless reuseDir, opens it
+// read-write or read-only (the harness holds the lock as a foreign holder) and reads the view.
+// problem != "" is a property failure, env != "" an environment problem.
+func c04Observe(dir string, J, man, idx []byte, readOnly, reuseDir bool, addrs []hash.Hash) (v verifJView, problem, env string) {
 	if !reuseDir {
-		if err := verifJWriteImage(x.dir, h.J, h.finalMan, idx); err != nil {
-			vh.Inconclusive(rt, "cannot write image: %v", err)
+		if err := verifJWriteImage(dir, J, man, idx); err != nil {
+			return v, "", fmt.Sprintf("cannot write image: %v", err)
 		}
 	}
 	var before map[string]verifJFileSig
 	if readOnly {
-		lock, mode, err := newJournalLock(x.dir, 0, false)
+		lock, mode, err := newJournalLock(dir, 0, false)
 		if err != nil || lock == nil || mode != chunks.ExclusiveAccessMode_Exclusive {
-			vh.Inconclusive(rt, "harness could not take the directory lock: %v", err)
+			return v, "", fmt.Sprintf("harness could not take the directory lock: %v", err)
 		}
 		defer func() { _ = lock.Unlock(); _ = lock.Close() }()
-		if before, err = verifJDirSig(x.dir); err != nil {
-			vh.Inconclusive(rt, "dir listing: %v", err)
+		if before, err = verifJDirSig(dir); err != nil {
+			return v, "", fmt.Sprintf("dir listing: %v", err)
 		}
 	}
-	st, err := verifJOpen(x.dir, JournalingStoreOptions{SkipLockFileTimeout: true}, nil)
+	st, err := verifJOpen(dir, JournalingStoreOptions{SkipLockFileTimeout: true}, nil)
 	if err != nil {
-		rt.Fatalf("%s: open: %v", what, err)
+		return v, fmt.Sprintf("open: %v", err), ""
 	}
 	if _, err = verifJLoad(st); err != nil {
 		_ = st.Close()
-		rt.Fatalf("%s: open fails (%v) where the index-free open of the same journal succeeds", what, err)
+		return v, fmt.Sprintf("open fails (%v) where the index-free open of the same journal succeeds", err), ""
 	}
 	wantMode := chunks.ExclusiveAccessMode(chunks.ExclusiveAccessMode_Exclusive)
 	if readOnly {
@@ -447,28 +460,135 @@ func (x *c04Ctx) observe(what string, idx []byte, readOnly bool, reuseDir bool) 
 	}
 	if st.AccessMode() != wantMode {
 		_ = st.Close()
-		rt.Fatalf("%s: access mode %v, want %v", what, st.AccessMode(), wantMode)
+		return v, fmt.Sprintf("access mode %v, want %v", st.AccessMode(), wantMode), ""
 	}
-	v, err := verifJReadView(st, x.addrs, true)
+	v, err = verifJReadView(st, addrs, true)
 	if err != nil {
 		_ = st.Close()
-		rt.Fatalf("%s: reading the view: %v", what, err)
+		return v, fmt.Sprintf("reading the view: %v", err), ""
 	}
 	if err = st.Close(); err != nil {
-		rt.Fatalf("%s: Close: %v", what, err)
+		return v, fmt.Sprintf("Close: %v", err), ""
 	}
 	if readOnly {
-		after, err := verifJDirSig(x.dir)
+		after, err := verifJDirSig(dir)
 		if err != nil {
-			vh.Inconclusive(rt, "dir listing: %v", err)
+			return v, "", fmt.Sprintf("dir listing: %v", err)
 		}
 		if d := verifJSigDiff(before, after); d != "" {
-			rt.Fatalf("%s: a read-only open modified the directory: %s", what, d)
+			return v, fmt.Sprintf("a read-only open modified the directory: %s", d), ""
 		}
-	} else if got := verifJReadFile(verifJJournalPath(x.dir)); !bytes.Equal(got, h.J) {
-		rt.Fatalf("%s: a read-write open+Close of a cleanly closed journal changed the journal file (%d -> %d bytes)", what, len(h.J), len(got))
+	} else if got := verifJReadFile(verifJJournalPath(dir)); !bytes.Equal(got, J) {
+		return v, fmt.Sprintf("a read-write open+Close of a cleanly closed journal changed the journal file (%d -> %d bytes)", len(J), len(got)), ""
 	}
-	return v
+	return v, "", ""
+}
+
+// c04Pinned: the two reported findings in their smallest shape, without rapid. A fixed history
+// (3 leaves + root, commit; 1 leaf + root, commit; index flush threshold 1, so two batches),
+// then (a) one lookup's journal offset +1 — a single corrupted byte in journal.idx, covered by no
+// checksum; (b) one lookup's length set to 3; (c) one lookup's address replaced and the batch
+// checksum recomputed. Each must show the same view as the index-free open.
+func c04Pinned(t *testing.T, base string) {
+	dir := filepath.Join(base, "pinned")
+	_ = os.RemoveAll(dir)
+	defer os.RemoveAll(dir)
+	if err := os.MkdirAll(dir, 0o755); err != nil {
+		vh.Inconclusive(t, "mkdir: %v", err)
+	}
+	st, err := verifJOpen(dir, JournalingStoreOptions{}, nil)
+	if err != nil {
+		t.Fatalf("pinned: open: %v", err)
+	}
+	if _, err = verifJLoad(st); err != nil {
+		t.Fatalf("pinned: load: %v", err)
+	}
+	if err = verifJSetMaxNovel(st, 1); err != nil {
+		t.Fatalf("pinned: %v", err)
+	}
+	var addrs []hash.Hash
+	var last hash.Hash
+	n := 0
+	commit := func(leaves int) {
+		var refs []hash.Hash
+		for i := 0; i < leaves; i++ {
+			n++
+			c := chunks.NewChunk([]byte(fmt.Sprintf("pinned leaf %d %s", n, strings.Repeat("x", 10*n))))
+			if err := st.Put(verifJCtx, c, verifJGetAddrs); err != nil {
+				t.Fatalf("pinned: Put: %v", err)
+			}
+			refs = append(refs, c.Hash())
+			addrs = append(addrs, c.Hash())
+		}
+		rc := chunks.NewChunk(verifJEncodeRefs(refs, []byte{byte(n)}))
+		if err := st.Put(verifJCtx, rc, verifJGetAddrs); err != nil {
+			t.Fatalf("pinned: Put: %v", err)
+		}
+		addrs = append(addrs, rc.Hash())
+		if ok, err := st.Commit(verifJCtx, rc.Hash(), last); err != nil || !ok {
+			t.Fatalf("pinned: Commit = %v, %v", ok, err)
+		}
+		last = rc.Hash()
+	}
+	commit(3)
+	commit(1)
+	if err = st.Close(); err != nil {
+		t.Fatalf("pinned: Close: %v", err)
+	}
+	J, man, X := verifJReadFile(verifJJournalPath(dir)), verifJReadFile(verifJManifestPath(dir)), verifJReadFile(verifJIndexPath(dir))
+	recs, batches := c04Parse(X)
+	if len(batches) != 2 || batches[0][1] < 1 {
+		t.Fatalf("pinned: expected an index with two batches, got %d bytes, %d records, %d batches", len(X), len(recs), len(batches))
+	}
+	img := filepath.Join(base, "pinned-img")
+	defer os.RemoveAll(img)
+	ref, problem, env := c04Observe(img, J, man, nil, false, false, addrs)
+	if env != "" {
+		vh.Inconclusive(t, "%s", env)
+	}
+	if problem != "" || ref.root != last {
+		t.Fatalf("pinned: reference open: %s (root %s, want %s)", problem, ref.root, last)
+	}
+	lo := recs[batches[0][0]].off // first lookup of the first batch
+	type pv struct {
+		name, finding string
+		idx            []byte
+	}
+	var pvs []pv
+	y := c04Clone(X)
+	binary.BigEndian.PutUint64(y[lo+17:], binary.BigEndian.Uint64(X[lo+17:])+1)
+	pvs = append(pvs, pv{"first lookup: journal offset +1 (one byte of journal.idx differs)", "C04-index-lookup-range-unchecked", y})
+	y = c04Clone(X)
+	binary.BigEndian.PutUint32(y[lo+25:], 3)
+	pvs = append(pvs, pv{"first lookup: length 3", "C04-index-lookup-range-unchecked", y})
+	y = c04Clone(X)
+	for i := 1; i < 17; i++ {
+		y[lo+i] = byte(0xA0 + i)
+	}
+	c04FixCrc(y, recs, batches[0])
+	pvs = append(pvs, pv{"first lookup: foreign address, batch checksum recomputed", "C04-index-consistent-forgery-trusted", y})
+	for _, v := range pvs {
+		for _, ro := range []bool{false, true} {
+			mode := map[bool]string{false: "read-write", true: "read-only"}[ro]
+			got, problem, env := c04Observe(img, J, man, v.idx, ro, false, addrs)
+			if env != "" {
+				vh.Inconclusive(t, "%s", env)
+			}
+			d := problem
+			if d == "" {
+				d = verifJViewDiff(ref, got, addrs)
+			}
+			if d == "" {
+				continue
+			}
+			if verifJFindingOpen("C04", v.finding) {
+				vh.ReportKnown("C04", v.finding, fmt.Sprintf("pinned: %s, %s open: %s", v.name, mode, d))
+				continue
+			}
+			vh.NoteViolation(t.Name(), "", fmt.Sprintf(`{"finding":%q,"history":"fresh journaling store, index flush threshold 1; Put 3 leaves + root, Commit; Put 1 leaf + root, Commit; Close","journal_idx_variant":%q,"open":%q,"expected":"same Root/Count/Has/Get/IterateAllChunks as with journal.idx deleted","actual":%q}`, v.finding, v.name, mode, d))
+			t.Errorf("pinned %s: %s, %s open differs from the index-free open: %s", v.finding, v.name, mode, d)
+		}
+	}
 }
 
 func c04Case(rt *rapid.T, rec *vh.Recorder, base string) {
@@ -559,5 +679,6 @@ func TestVerif_C04(t *testing.T) {
 	defer rec.Write(t)
 	base, cleanup := vh.ScratchDir(t, "c04-")
 	defer cleanup()
+	t.Run("pinned", func(t *testing.T) { c04Pinned(t, base) })
 	vh.Check(t, "index_variants", 8, 20, func(rt *rapid.T) { c04Case(rt, rec, base) })
 }
